@@ -269,7 +269,7 @@ def parent(prop, tier, seed):
     # 4. report
     replay_paths = []
     for j, (i, spec, v) in enumerate(new_viol[:10]):
-        path = os.path.join(boot.VERIF, "replay", prop.id, f"{tier}-seed{seed}-case{i}-{j}.json")
+        path = os.path.join(os.environ.get("VERIF_REPLAY_DIR") or os.path.join(boot.VERIF, "replay"), prop.id, f"{tier}-seed{seed}-case{i}-{j}.json")
         os.makedirs(os.path.dirname(path), exist_ok=True)
         with open(path, "w", encoding="utf-8") as f:
             json.dump(dict(property=prop.id, tier=tier, seed=seed, index=i, violation=v, spec=spec), f, indent=1, default=str)
